@@ -185,6 +185,12 @@ def build_props(pid, allowed_axioms=(), timeout=1500):
         res['wall'] = time.time() - t0
         return res
     pa = parse_assumptions(out)
+    if len(pa) < len(names):
+        # somebody else's make compiled the file between our rm and make: re-check it directly
+        rc2, out2, _ = sh('ulimit -v 24000000; coqc -q -R . Verif Props/%s.v' % pid, timeout, cwd=COQ)
+        if rc2 == 0:
+            pa = parse_assumptions(out2)
+            res['log_tail'] = out2[-3000:]
     bad_ax = []
     closed = 0
     for r in pa:
